@@ -1289,7 +1289,8 @@ impl Prop for C18Positions {
                 2 => gen::terminal_biased(),
                 3 => gen::terminal_atlas(),
                 2 => gen::endgame(5).prop_map(move |r| strip(gen::build(&r))),
-                1 => gen::ep_theme().prop_map(move |r| strip(gen::build(&r))),
+                // en passant as the only way out of a check, pinned or discovering captures
+                3 => gen::ep_theme().prop_map(move |r| strip(gen::build(&r))),
                 3 => gen::walk(80).prop_map(move |w| strip(gen::walk_end(&w))),
             ],
             any::<u8>(),
